@@ -38,7 +38,6 @@ ASSUMPTIONS = ["async_broadcast (DESIGN Appendix B): every active receiver sees 
                "every schedule is finite; that the runtime takes enabled actions is its contract)",
                "transport: recvmsg returns 1..|buf| bytes, 0 at end-of-file, or an error; after a failed sendmsg reads fail too",
                "inbound messages are well formed (malformed input is C12/C14) and at least one byte long"]
-PARTIAL = ["C38_no_hang_partial", "C38_addmatch_race_refuted", "C38_full_statement_refuted"]
 
 S_MAIN = "t1:A,t2:B/c1,c2,c3/isAF:120,ir1/e40/isBG:150,ie2,isAG:200/e8/isBF:60/c4,t3:A,t4:C,t5:*"
 S_BACK = "t1:A:q1:h,t2:*/c1,c2/isAF:10,isAG:30,ir1,isAF:20/u1/e5/c3,t3:A"
@@ -159,15 +158,14 @@ ENABLED = True
 LEVEL = "proof"
 LEVEL_TEXT = ("Theorems in coq/theories/Properties/C38.v over a small-step model of the socket reader (byte-wise reads, fault at an "
               "arbitrary position, error broadcast to every entry of msg_senders in any order with back-pressure, senders.clear()), of "
-              "call_method_raw/PendingMethodCall, add_match (check, subscriptions mutex, AddMatch round trip on a bus, insert), message "
-              "streams and sends, for any number of tasks, every schedule, every chunking: a state in which nothing can move is one in "
-              "which every call has a result (a completely received reply or an error) and every stream has ended (C38_no_hang_partial), "
-              "such a state is reached within mu steps on every schedule (C38_no_hang_terminates), streams hold exactly the complete "
-              "matching messages in order then at most one error (C38_prefix, C38_prefix_ended, C38_prefix_complete), later calls and "
-              "subscriptions fail (C38_later_fail_*), no panic (C38_nopanic). PARTIAL: the faithful model REFUTES the full statement "
-              "(C38_addmatch_race_refuted, C38_full_statement_refuted): add_match tests msg_senders before and inserts after the AddMatch "
-              "round trip; confirmed on the real code (known finding addmatch_race). The model is tied to the code by replaying the poll "
-              "order of ~2500 faulted runs of real Connections (every byte position, every sendmsg call) through the model's step function.")
-LEVEL_NOTE = ("partial: protocol-level proof; async-broadcast, async-lock, the executor and the transport are assumed contracts "
-              "(ASSUMPTIONS); one known deviation class (addmatch_race) is excluded by C38_no_hang_partial and reported as KNOWN-FINDING. "
-              "Trusted: Coq kernel; the hand-written model; harness/hfail.")
+              "call_method_raw/PendingMethodCall, add_match (check, subscriptions mutex, AddMatch round trip on a bus, re-test and insert), "
+              "message streams and sends, for any number of tasks, every schedule, every chunking. At full strength (C38_no_hang = "
+              "C38_full_statement): a state in which nothing can move is one in which every call has a result (a completely received "
+              "reply or an error) and every stream has ended or was refused; such a state is reached within mu steps on every schedule "
+              "(C38_no_hang_terminates); msg_senders stays empty after the reader's exit (C38_senders_stay_cleared; refuted before fix "
+              "3703ee13, finding addmatch_race, now fixed); streams hold exactly the complete matching messages in order then at most one "
+              "error (C38_prefix, C38_prefix_ended, C38_prefix_complete); later calls and subscriptions fail (C38_later_fail_*); no panic "
+              "(C38_nopanic). The model is tied to the code by replaying the poll order of ~2300 faulted runs of real Connections (every "
+              "byte position, every sendmsg call) through the model's step function.")
+LEVEL_NOTE = ("partial only in this sense: protocol-level proof; async-broadcast, async-lock, the executor and the transport are assumed "
+              "contracts (ASSUMPTIONS). No known deviation class is left. Trusted: Coq kernel; the hand-written model; harness/hfail.")
